@@ -408,9 +408,11 @@ class BlackbirdProgram:
 
                     elif isinstance(v, sym.Expr):
                         # argument contains free parameters
-                        res = str(v)
-                        for p in v.free_symbols:
-                            res = res.replace(str(p), "{"+str(p)+"}")
+                        # rename every free parameter p to {p} before printing; rewriting
+                        # the printed string once per parameter depends on the iteration
+                        # order of the symbol set when one name contains another
+                        braced = {p: sym.Symbol("{" + str(p) + "}") for p in v.free_symbols}
+                        res = str(v.xreplace(braced))
 
                         args.append(res)
 
